@@ -299,7 +299,7 @@ FUNCS = [CONN + "." + f for f in ("send_msg", "_state_set", "_process_message", 
 TASKS = [
     Task("send_msg", send_harness, c14_cfg(), [CONN + ".send_msg"]),
     Task("send_msg[transport_fault]", send_fault_harness, c14_cfg(), [CONN + ".send_msg"]),
-    Task("_process_message", dispatcher_harness, c14_cfg({CONN + "._process_resend": ic.contract_process_resend}),
+    Task("_process_message", dispatcher_harness, c14_cfg({CONN + "._process_resend": ic.make_resend_contract(ic.RESEND_NEEDS["C14"])}),
          FUNCS, timeout_ms=20000),
     Task("_process_resend", resend_harness, resend_cfg(), [CONN + "._process_resend"], timeout_ms=20000),
     Task("mustfail", mustfail, c14_cfg(), [], expect_refuted=True),
@@ -307,6 +307,13 @@ TASKS = [
 
 for _t_ in TASKS:
     _t_.cover = False  # no path witnesses (schedules are not replayed path by path); feasibility is checked per branch
+
+# callee contracts decided on the real bodies in the same run: _process_resend as called by the dispatcher task
+# (refinement, C06's harness), Codec.encode's number choice (C05's harness), the journal writes (C13's harnesses)
+import C06_resend as _c06  # noqa: E402
+import shared_tasks as _st  # noqa: E402
+TASKS[-1:-1] = [_c06.refinement_task(ic.RESEND_NEEDS["C14"], ic.RESEND_INV["C14"])] + _st.encode_tasks() + \
+    _st.journal_tasks(ops=("persist_msg",), durability=False, direction="OUTBOUND")
 
 PLAIN_SCENARIOS = ["three_senders", "senders_transport_fault", "sender_heartbeat", "sender_reader_testrequest",
                    "sender_reader_appmsg", "initial_logon_logout", "acceptor_logon_sender", "reader_gap_sender",
